@@ -488,7 +488,7 @@ def run(tier, seed):
         tasks.append((CP.P3(), False, tier, seed))
     from .common import pmap_staged
 
-    rtasks = [(task_repr, (p, True, tier, seed)) for p in ps] + [(task_regimes, (p, True, tier, seed)) for p in ps]
+    rtasks = [(task_repr, (p, True, tier, seed)) for p in ps] + [(task_regimes, (p, True, tier, seed)) for p in ps + [CP.P27()]] + [(task_regimes, (CP.P27(), False, tier, seed))]
     from .common import with_extra_validation
 
     extra = [(with_extra_validation, (task, CP.P3(), True, tier, seed)), (with_extra_validation, (task_regimes, CP.P1(), True, tier, seed))]
@@ -509,7 +509,7 @@ def replay(path):
     with open(path) as f:
         r = json.load(f)
     info = r["info"]
-    ps = {p.id: p for p in programs_for("thorough", int(r.get("seed", 0)))}
+    ps = {p.id: p for p in programs_for("thorough", int(r.get("seed", 0))) + CP.catalogue()}
     p = ps[info["program"]]
     e = r["inputs"]
     if info.get("what") == "aliasing":
